@@ -196,6 +196,16 @@ def run_case(case, V, env):
         return env.H(label, pdf_func.j, "v"), env.H(label, pdf_func.j, "e")
 
     with npshim.patched((pcm, "np", npshim.NPShim()), (conv, "convolution", fake_convolution)):
+        # history: the probed point is not the first TMC point of its Q2 -- a point at larger x (same Q2, same parent, whose cache dict is live as
+        # in StructureFunction) has been evaluated before it; on code without hidden state that changes nothing
+        sf.cache = {}
+        try:
+            tmc.ESFTMCmap[kind](sf, {"x": (1 + V["x"]) / 2, "Q2": V["Q2"]}).get_result()
+        except ValueError:
+            pass
+        del seen[:]
+        del log[:]
+        del sf.requests[:]
         obj = tmc.ESFTMCmap[kind](sf, {"x": V["x"], "Q2": V["Q2"]})
         try:
             res = obj.get_result()
